@@ -28,6 +28,7 @@ func (ex *Exec) symParam(st *State, name string, t types.Type, recv bool) Val {
 		s := MkSlice(rg, off, ln, cp)
 		st.assume(sliceInv(s))
 		st.assume(mkTerm("(isold "+rg.S+")", SortBool))
+		st.known(rg)
 		return TV(s, t)
 	}
 	st.declare(sym, sortOf(t))
@@ -38,6 +39,7 @@ func (ex *Exec) symParam(st *State, name string, t types.Type, recv bool) Val {
 		if _, ok := t.Underlying().(*types.Pointer); ok {
 			st.assume(mkTerm("(isold "+x.S+")", SortBool))
 			st.assume(Ge(x, IntLit(0)))
+			st.known(x)
 			if recv {
 				st.assume(Gt(x, IntLit(0)))
 			}
@@ -47,6 +49,7 @@ func (ex *Exec) symParam(st *State, name string, t types.Type, recv bool) Val {
 		}
 	case SortIface:
 		st.assume(mkTerm("(isold (i.val "+x.S+"))", SortBool))
+		st.known(IfVal(x))
 	}
 	return TV(x, t)
 }
@@ -118,6 +121,9 @@ func (ex *Exec) verifyFunc(fn *ssa.Function, c *Contract) {
 	ex.top, ex.topC = fn, c
 	frameStack = nil
 	st := newState(ex)
+	st.declare("alloc0", SortInt)
+	st.allocCtr = mkTerm("alloc0", SortInt)
+	st.assume(Ge(st.allocCtr, IntLit(1)))
 	ex.topParams = map[string]Val{}
 	hasRecv := fn.Signature.Recv() != nil
 	for i, p := range fn.Params {
@@ -131,7 +137,9 @@ func (ex *Exec) verifyFunc(fn *ssa.Function, c *Contract) {
 		}
 	}
 	for _, r := range c.Requires {
-		ex.specialise(st, r.Expr)
+		if ex.active(r.Props) {
+			ex.specialise(st, r.Expr)
+		}
 	}
 	var args []Val
 	for i, p := range fn.Params {
@@ -145,6 +153,9 @@ func (ex *Exec) verifyFunc(fn *ssa.Function, c *Contract) {
 	fr0 := &Frame{fn: fn, contract: c, depth: 0, params: ex.topParams}
 	env := &Env{ex: ex, st: st, old: ex.entry, vars: map[string]Val{}, fr: fr0, pkg: ex.pkgOfFrame(fr0)}
 	for _, r := range c.Requires {
+		if !ex.active(r.Props) {
+			continue
+		}
 		t, err := ex.evalSpecBool(r.Expr, env)
 		if err != nil {
 			ex.errors = append(ex.errors, fmt.Sprintf("requires %s: %v", r.Label, err))
@@ -157,7 +168,7 @@ func (ex *Exec) verifyFunc(fn *ssa.Function, c *Contract) {
 	ex.runFunc(st, fn, c, args, nil, 0, func(st2 *State, rets []Val) {
 		ex.exitPaths++
 		ex.cover(st2, "exit")
-		post := &Env{ex: ex, st: st2, old: ex.entry, vars: map[string]Val{}, fr: fr0, pkg: env.pkg}
+		post := &Env{ex: ex, st: st2, old: ex.entry, vars: map[string]Val{}, fr: fr0, pkg: env.pkg, postLocals: true}
 		for i, r := range rets {
 			if i < len(c.Results) {
 				post.vars[c.Results[i]] = r
@@ -171,6 +182,9 @@ func (ex *Exec) verifyFunc(fn *ssa.Function, c *Contract) {
 			}
 		}
 		for _, e := range c.Ensures {
+			if !ex.active(e.Props) {
+				continue
+			}
 			t, err := ex.evalSpecBool(e.Expr, post)
 			if err != nil {
 				ex.errors = append(ex.errors, fmt.Sprintf("ensures %s: %v", e.Label, err))
